@@ -94,6 +94,19 @@ def selected(line, delim, rs):
     return [fields[b:e] for b, e in rs]
 
 
+def branch(line, delim, rs):
+    """which exits of the RangeFields loops the case takes (the case split of loop_spec)"""
+    n = len(line.split(delim))
+    for b, e in rs:
+        if b >= n:
+            return "skip-returns"
+        if e == INF:
+            return "open-range"
+        if e >= n:
+            return "line-ends-in-range"
+    return "all-ranges-closed-by-delimiter" if rs else "no-range"
+
+
 def shape(line, delim, rs):
     n = len(line.split(delim))
     need = max([(b + 1) if e == INF else e for b, e in rs] or [0])
@@ -322,6 +335,8 @@ def main(argv):
     for d, s, l in rcases:
         rs = canonical(cut_parse(s) or []) or []
         c.count(("R", d, s, l), nontrivial=len(l) > 0, bucket="range/" + shape(l, bytes([d]), rs))
+        bk = "branch/" + branch(l, bytes([d]), rs)
+        c.cov["distribution"][bk] = c.cov["distribution"].get(bk, 0) + 1
     c.sample({"op": "P", "list": lists[200].decode("latin1")})
     c.sample({"op": "R", "delim": rcases[5000][0], "list": rcases[5000][1].decode(), "line": repr(rcases[5000][2])})
     c.sample({"op": "R", "delim": rcases[-1][0], "list": rcases[-1][1].decode(), "line": repr(rcases[-1][2])})
